@@ -4,10 +4,12 @@
 (* OUTCOME CLASSES on one connection, with the abstract server loop.       *)
 (*                                                                         *)
 (* The model: requests arrive in batches (Deliver, only while the server   *)
-(* waits), the server answers one complete request at a time (Process),    *)
-(* QUIT makes it close (Close).  Invariants: the server only waits when    *)
-(* every complete request was answered, replies never outrun requests,     *)
-(* nothing is processed after QUIT.  Every (pipeline, configuration,       *)
+(* waits), the server executes one complete request at a time (Process)    *)
+(* and makes replies visible in order, possibly several at once (Flush: a  *)
+(* server may batch the replies of a pipeline); QUIT makes it close        *)
+(* (Close).  Invariants: the server only waits when every complete request *)
+(* was answered, replies never outrun executed requests, nothing is        *)
+(* processed after QUIT.  Every (pipeline, configuration,       *)
 (* chunking) of the bounded space is exported for replay.                  *)
 (***************************************************************************)
 EXTENDS Integers, Sequences, TLC, Json
@@ -15,8 +17,8 @@ CONSTANTS MaxLen,        \* longest pipeline
           Chunkings,     \* subset of {"whole", "perreq", "bytes", "allsplits", "nextsplits"}; nextsplits = a chunk that holds
                          \* some complete requests and a proper prefix of the next one (pipelines of 2 or 3 requests)
           SplitMaxLen    \* "allsplits" only for pipelines up to this length
-VARIABLES pipe, rp, chk, ndeliv, nrep, quit, closed, auth
-vars == <<pipe, rp, chk, ndeliv, nrep, quit, closed, auth>>
+VARIABLES pipe, rp, chk, ndeliv, nexec, nrep, quit, closed, auth
+vars == <<pipe, rp, chk, ndeliv, nexec, nrep, quit, closed, auth>>
 
 KindsOpen == {"echo", "get", "argerr", "unknown", "herr", "hnil", "hboth", "quit", "nonarray", "bulkframe", "emptyarr"}
 KindsPass == {"auth_ok", "auth_bad", "get", "echo", "quit", "unknown"}
@@ -28,29 +30,34 @@ Init == /\ rp \in BOOLEAN
         /\ chk \in Chunkings
         /\ (chk = "allsplits" => Len(pipe) <= SplitMaxLen)
         /\ (chk = "nextsplits" => Len(pipe) >= 2 /\ Len(pipe) <= SplitMaxLen + 1)
-        /\ ndeliv = 0 /\ nrep = 0 /\ quit = FALSE /\ closed = FALSE /\ auth = ~rp
+        /\ ndeliv = 0 /\ nexec = 0 /\ nrep = 0 /\ quit = FALSE /\ closed = FALSE /\ auth = ~rp
 
 Waiting == ~closed /\ ~quit /\ nrep = ndeliv
 
 Deliver == /\ Waiting /\ ndeliv < Len(pipe)
            /\ \E k \in 1..(Len(pipe) - ndeliv) : ndeliv' = ndeliv + k
-           /\ UNCHANGED <<pipe, rp, chk, nrep, quit, closed, auth>>
+           /\ UNCHANGED <<pipe, rp, chk, nexec, nrep, quit, closed, auth>>
 
-Process == /\ ~closed /\ ~quit /\ nrep < ndeliv
-           /\ LET k == pipe[nrep + 1] IN
-              /\ nrep' = nrep + 1
+Process == /\ ~closed /\ ~quit /\ nexec < ndeliv
+           /\ LET k == pipe[nexec + 1] IN
+              /\ nexec' = nexec + 1
               /\ quit' = (k = "quit" /\ auth)
               /\ auth' = (auth \/ k = "auth_ok")
-           /\ UNCHANGED <<pipe, rp, chk, ndeliv, closed>>
+           /\ UNCHANGED <<pipe, rp, chk, ndeliv, nrep, closed>>
 
-Close == /\ ~closed /\ (quit \/ (nrep = ndeliv /\ ndeliv = Len(pipe)))
+\* replies become visible in order; any number of the executed requests' replies at once
+Flush == /\ ~closed /\ nrep < nexec
+         /\ \E k \in (nrep + 1)..nexec : nrep' = k
+         /\ UNCHANGED <<pipe, rp, chk, ndeliv, nexec, quit, closed, auth>>
+
+Close == /\ ~closed /\ nrep = nexec /\ (quit \/ (nrep = ndeliv /\ ndeliv = Len(pipe)))
          /\ closed' = TRUE
-         /\ UNCHANGED <<pipe, rp, chk, ndeliv, nrep, quit, auth>>
+         /\ UNCHANGED <<pipe, rp, chk, ndeliv, nexec, nrep, quit, auth>>
 
-Next == Deliver \/ Process \/ Close
+Next == Deliver \/ Process \/ Flush \/ Close
 Spec == Init /\ [][Next]_vars
 
-RepliesNeverOutrun == nrep <= ndeliv
+RepliesNeverOutrun == nrep <= nexec /\ nexec <= ndeliv
 RepliedBeforeBlocking == ENABLED Deliver => nrep = ndeliv
 QuitStops == quit => ~ENABLED Process
 AllAnswered == closed /\ ~quit => nrep = ndeliv
